@@ -74,13 +74,53 @@ def pit_columns(model, desc, x):
     return u
 
 
+# an integer seed spelled with a NumPy integer type (an element of np.arange, of SeedSequence.generate_state,
+# of a seed column read from a file); "np.int64-0" is the falsy NumPy zero.  A 0-d integer ARRAY is not a seed of
+# the unchanged library (TypeError for a model, ValueError for a distribution) and is not an input class.
+NP_SEED_TYPES = {"np.int64": np.int64, "np.int32": np.int32, "np.uint32": np.uint32, "np.int64-0": np.int64}
+SEED_SPELLINGS = ["int", "np.int64", "np.int32", "np.uint32"]
+
+
+def spell_seed(ty, value):
+    """the integer `value` as a python int or as a NumPy integer scalar of the named type"""
+    return int(value) if ty == "int" else NP_SEED_TYPES[ty](int(value))
+
+
 def rs_of(kind, seed):
     """random_state of the given kind; "int0" is the integer seed 0 (legal, but falsy in Python)"""
     if kind == "none":
         return None
     if kind == "int0":
         return 0
+    if kind == "np.int64-0":
+        return np.int64(0)
+    if kind in NP_SEED_TYPES:
+        return spell_seed(kind, int(seed) % (2**31 - 1))
     return int(seed) if kind == "int" else np.random.default_rng(int(seed))
+
+
+# families a user derives from virocon.distributions.ScipyDistribution (class attribute scipy_dist_name);
+# parameters are the scipy shape parameters, loc and scale, kept as plain attributes of the object
+SCIPY_FAMILIES = {"scipy:gamma": [("a", 1.2, 4.0), ("loc", 0.0, 1.0), ("scale", 0.5, 2.5)],
+                  "scipy:gumbel_r": [("loc", -1.0, 2.0), ("scale", 0.5, 2.0)],
+                  "scipy:weibull_min": [("c", 1.0, 3.0), ("loc", 0.0, 1.0), ("scale", 0.6, 3.0)]}
+_SCIPY_CLS = {}
+
+
+def uni_class(vc, fam):
+    if fam not in SCIPY_FAMILIES:
+        return M.dist_class(vc, fam)
+    import virocon.distributions as vd
+    if fam not in _SCIPY_CLS:
+        name = fam.split(":")[1]
+        _SCIPY_CLS[fam] = type("Scipy_" + name, (vd.ScipyDistribution,), {"scipy_dist_name": name})
+    return _SCIPY_CLS[fam]
+
+
+def uni_params(rng, fam):
+    if fam not in SCIPY_FAMILIES:
+        return M.describe(rng, 1, [None], [fam], None)["dims"][0]["params"]
+    return {p: float(rng.uniform(lo, hi)) for p, lo, hi in SCIPY_FAMILIES[fam]}
 
 
 def model_key(c):
@@ -138,10 +178,10 @@ def ks_task(c):
     try:
         if c["n_dim"] == 1:
             vc = import_virocon()
-            desc = M.describe(np.random.default_rng(c["seed"]), 1, [None], c["families"], None)
+            desc = {"dims": [{"params": uni_params(np.random.default_rng(c["seed"]), c["families"][0])}]}
             if c.get("params"):
                 desc["dims"][0]["params"] = dict(c["params"])
-            dist = M.dist_class(vc, c["families"][0])(**desc["dims"][0]["params"])
+            dist = uni_class(vc, c["families"][0])(**desc["dims"][0]["params"])
             with warnings.catch_warnings():
                 warnings.simplefilter("ignore")
                 x = np.asarray(dist.draw_sample(c["n"], random_state=rs_of(c["rs"], c["seed"] + 1)), dtype=float)
@@ -173,7 +213,7 @@ def ks_task(c):
         desc = None
     key = f"joint n={c['n']} random_state={c['rs']} " + model_key(c)
     return [dict(rec=rec, key=key, nontrivial=bool(desc) and M.nontrivial_dependence(desc), case=c,
-                 colsens=bool(desc) and M.column_sensitive(desc))]
+                 colsens=bool(desc) and M.column_sensitive(desc), seedtype=bool(c.get("seedtype")))]
 
 
 # ---- fitted models ---------------------------------------------------------------------------
@@ -359,14 +399,15 @@ def model_history_task(c):
 
 def refit_history_task(c):
     """one distribution OBJECT: draw_sample -> change it (fit with one of the methods the family
-    supports, or assign parameters) -> draw_sample again.  The second sample must follow the cdf of
+    supports, or write all / one of the parameter attributes directly) -> draw_sample again; shipped
+    families and families derived from ScipyDistribution.  The second sample must follow the cdf of
     the CURRENT parameters and be bit-for-bit the sample of a fresh object with equal parameters."""
     vc = import_virocon()
     fam, how = c["families"][0], c["how"]
     rng = np.random.default_rng(c["seed"])
-    pa = M.describe(rng, 1, [None], [fam], None)["dims"][0]["params"]
-    pb = M.describe(rng, 1, [None], [fam], None)["dims"][0]["params"]
-    cls = M.dist_class(vc, fam)
+    pa = uni_params(rng, fam)
+    pb = uni_params(rng, fam)
+    cls = uni_class(vc, fam)
     out = []
     np.random.seed((c["seed"] + 23) % (2**32 - 1))
 
@@ -384,9 +425,12 @@ def refit_history_task(c):
         out.append(dict(rec=ks_rec(obj, x1, pa), key=f"history first-sample {fam} n={c['n']} seed={c['seed']}",
                         nontrivial=True, case=c))
         try:
-            if how == "assign":
+            if how == "assign":             # every parameter attribute written directly
                 for k, v in pb.items():
                     setattr(obj, k, v)
+            elif how == "assign-one":       # ONE parameter attribute written directly (the one that moves most)
+                k1 = max(pb, key=lambda k: abs(pb[k] - pa[k]) / (abs(pa[k]) + 0.5))
+                setattr(obj, k1, pb[k1])
             else:
                 data = np.asarray(cls(**pb).draw_sample(c["n_data"], random_state=c["seed"] + 2), dtype=float)
                 method, _, weights = how.partition(":")
@@ -406,7 +450,7 @@ def refit_history_task(c):
         xo = wrap_to(pa["mu"], x2) if fam == "vonmises" else x2
         moved = rec["finite"] and d5(ks_uniform(np.asarray(old.cdf(xo), dtype=float))) > 3 * 1190
     out.append(dict(rec=rec, key=f"history sample-after-{how} {fam} n={c['n']} random_state={c['rs']} seed={c['seed']}",
-                    nontrivial=bool(moved), case=c, refit=True))
+                    nontrivial=bool(moved), case=c, refit=True, scipyhist=bool(c.get("scipyfam")) and how != "mle"))
     return out
 
 
@@ -473,9 +517,34 @@ def _pool_objects(seed):
     return objs
 
 
+def _seedtype_pool(seed):
+    """objects for the histories whose integer seeds are spelled with NumPy integer types: models in which
+    two variables are sampled by inversion of uniforms (Weibull / exponentiated Weibull), other models,
+    and two plain distributions"""
+    vc = import_virocon()
+    rng = np.random.default_rng(seed)
+    objs = []
+    for cond, fams, sh in (([None, 0], ["weibull", "weibull"], [0, 4]), ([None, None], ["expweibull", "weibull"], [0, 0]),
+                           ([None, 0], ["weibull", "expweibull"], [0, 2]), ([None, 0, 1], ["expweibull", "weibull", "lognormal"], [0, 3, 2]),
+                           ([None, 0], ["lognormal", "normal"], [0, 4]), ([None, None, 0], ["weibull", "gengamma", "expweibull"], [0, 0, 4])):
+        objs.append((f"GHM cond={cond} families={','.join(fams)}", M.build_model(vc, rng, len(cond), cond, fams, sh)))
+    for fam in ("weibull", "normal"):
+        desc = M.describe(rng, 1, [None], [fam], None)
+        objs.append((f"{fam}{ {k: round(v, 3) for k, v in desc['dims'][0]['params'].items()} }",
+                     M.dist_class(vc, fam)(**desc["dims"][0]["params"])))
+    return objs
+
+
 def hist_task(c):
-    """replay one TLC history on real objects"""
-    pool = pool_objects(c["pool_seed"])
+    """replay one TLC history on real objects; with c["types"] the integer seeds A and B are spelled
+    draw by draw with the listed integer types (python int, np.int64, np.int32, np.uint32): a seed is
+    identified by its VALUE, so the stream model (and every clause) is the one of the plain history"""
+    if c.get("types"):
+        if ("seedtype", c["pool_seed"]) not in _POOL:
+            _POOL[("seedtype", c["pool_seed"])] = _seedtype_pool(c["pool_seed"])
+        pool = _POOL[("seedtype", c["pool_seed"])]
+    else:
+        pool = pool_objects(c["pool_seed"])
     names = {1: pool[c["objs"][0]][0], 2: pool[c["objs"][1]][0]}
     real = {1: pool[c["objs"][0]][1], 2: pool[c["objs"][1]][1]}
     np.random.seed(c["global_seed"])
@@ -485,6 +554,8 @@ def hist_task(c):
     try:
         for d in c["draws"]:
             rs = {"none": None, "seedA": c["seed_a"], "seedB": c["seed_b"]}.get(d["rs"], gens.get(d["rs"]))
+            if d.get("ty"):
+                rs = spell_seed(d["ty"], rs)
             with warnings.catch_warnings():
                 warnings.simplefilter("ignore")
                 x = np.ascontiguousarray(np.asarray(real[d["obj"]].draw_sample(d["n"], random_state=rs), dtype=float))
@@ -493,10 +564,11 @@ def hist_task(c):
         rec["dig"] = digs
     except Exception as e:  # noqa
         rec["exc"] = f"{type(e).__name__}: {e}"[:200]
-    hist = " ".join(f"{d['obj']}:{d['n']}:{d['rs']}" for d in c["draws"])
+    hist = " ".join(f"{d['obj']}:{d['n']}:{d['rs']}" + (f"({d['ty']}({c['seed_a'] if d['rs'] == 'seedA' else c['seed_b']}))" if d.get("ty") else "")
+                    for d in c["draws"])
     key = f"history [{hist}] obj1={names[1]} obj2={names[2]}"
     pairs = len(c["draws"]) * (len(c["draws"]) - 1) // 2
-    return [dict(rec=rec, key=key, nontrivial=pairs > 0, case=c)]
+    return [dict(rec=rec, key=key, nontrivial=pairs > 0, case=c, seedtypes=bool(c.get("types")))]
 
 
 def run_task(c):
@@ -651,6 +723,62 @@ def make_tasks(ctx, cfgs, hists):
         tasks.append(dict(task="hist", draws=h, objs=[a, b], pool_seed=ctx.seed + 99,
                           seed_a=0, seed_b=2000 + ctx.seed, seed_c=3000 + ctx.seed,
                           global_seed=(ctx.seed + 4242 + j) % (2**32 - 1)))
+    # ---- added later: placed last so that the seeds of the cases above do not change ----
+    # the integer seed spelled with a NumPy integer type (np.int64 / np.int32 / np.uint32, the falsy np.int64(0)):
+    # the variables of a joint sample must still be served by ONE stream.  Every 2-D configuration and a rotating
+    # part of the 3-D ones, all variables sampled by inversion of uniforms (Weibull / exponentiated Weibull): if
+    # every variable seeded its own stream from the same integer, their Rosenblatt components would coincide
+    inv = [["weibull", "weibull"], ["expweibull", "weibull"], ["weibull", "expweibull"], ["expweibull", "expweibull"]]
+    npk = ["np.int64", "np.int32", "np.uint32", "np.int64-0"]
+    for rep in range(ctx.pick(1, 3)):
+        for cfg in by_n[2]:
+            k += 1
+            tasks.append(dict(base(cfg), task="ks", rs=npk[k % 4], n=100_000, families=inv[(k // 4) % 4], seedtype=True))
+        for idx, cfg in enumerate(by_n[3]):
+            if (idx + rep + ctx.seed) % ctx.pick(8, 3) == 0:
+                k += 1
+                tasks.append(dict(base(cfg), task="ks", rs=npk[k % 4], n=100_000, seedtype=True,
+                                  families=inv[(k // 4) % 4] + [["weibull", "expweibull"][(k // 16) % 2]]))
+    for fam in M.FAMILIES:          # a plain distribution seeded with a NumPy integer
+        k += 1
+        tasks.append(dict(task="ks", n_dim=1, cond=[None], sh=[0], families=[fam], rs=npk[k % 4],
+                          seed=int(rng.integers(1, 2**31 - 1)), n=100_000))
+    # ... one attribute written directly (shipped families), and families derived from ScipyDistribution:
+    # a fresh sample, and draw -> write all / one attribute / fit -> draw again
+    for rep in range(ctx.pick(1, 4)):
+        for fam in M.FAMILIES:
+            k += 1
+            tasks.append(dict(task="refit_history", n_dim=1, cond=[None], sh=[0], families=[fam], how="assign-one",
+                              rs=["int", "generator", "int0", "none"][k % 4], n=100_000, n_data=3000,
+                              seed=int(rng.integers(1, 2**31 - 1))))
+    for rep in range(ctx.pick(2, 6)):
+        for fam in SCIPY_FAMILIES:
+            k += 1
+            tasks.append(dict(task="ks", n_dim=1, cond=[None], sh=[0], families=[fam], rs=rs4x[k % 4], n=100_000,
+                              seed=int(rng.integers(1, 2**31 - 1))))
+            for how in ("assign", "assign-one", "mle"):
+                k += 1
+                tasks.append(dict(task="refit_history", n_dim=1, cond=[None], sh=[0], families=[fam], how=how,
+                                  rs=["int", "generator", "int0", "none"][k % 4], n=100_000, n_data=3000,
+                                  seed=int(rng.integers(1, 2**31 - 1)), scipyfam=True))
+    # the histories that draw twice from the same call with the same integer seed, replayed with the seed spelled
+    # draw by draw as python int / np.int64 / np.int32 / np.uint32 (step 0: one NumPy type throughout = "reproducible
+    # by a NumPy integer seed"; step 1: a different type per draw = "the seed is its value"), on models whose
+    # variables are sampled by inversion and on plain distributions; seed A alternates between 0 and a positive value
+    typed = [h for h in hists if any(a["rs"] in ("seedA", "seedB") and a["rs"] == b["rs"] and a["obj"] == b["obj"]
+                                     and a["n"] == b["n"] for i, a in enumerate(h) for b in h[i + 1:])]
+    PT = 8
+    for j, h in enumerate(typed[::ctx.pick(1, 2)]):
+        a = (j + ctx.seed) % PT
+        b = (a + 1 + (j // PT) % (PT - 1)) % PT
+        step = j % 2
+        # step 0: one NumPy type throughout (never the python int: that is the plain history)
+        draws = [dict(d, ty="" if d["rs"] not in ("seedA", "seedB") else
+                      SEED_SPELLINGS[(j // 2 + i) % 4] if step else SEED_SPELLINGS[1 + (j // 2) % 3])
+                 for i, d in enumerate(h)]
+        tasks.append(dict(task="hist", draws=draws, objs=[a, b], pool_seed=ctx.seed + 77, types=True,
+                          seed_a=[0, 1000 + ctx.seed][(j // 2) % 2], seed_b=2000 + ctx.seed, seed_c=3000 + ctx.seed,
+                          global_seed=(ctx.seed + 777 + j) % (2**32 - 1)))
     return tasks
 
 
@@ -684,10 +812,13 @@ def selftest(ctx):
     draws = [dict(obj=1, n=4, rs="seedA"), dict(obj=1, n=4, rs="seedA"), dict(obj=1, n=4, rs="seedB")]
     gd = [dict(obj=1, n=4, rs="gen1"), dict(obj=1, n=4, rs="gen2"), dict(obj=1, n=4, rs="gen1")]
     nn = [dict(obj=1, n=4, rs="none"), dict(obj=2, n=4, rs="seedA"), dict(obj=1, n=4, rs="none")]
+    td = [dict(obj=1, n=4, rs="seedA", ty="int"), dict(obj=1, n=4, rs="seedA", ty="np.int64"),
+          dict(obj=2, n=4, rs="none", ty="")]
     ok = dict(kind="ks", exc="", n=100000, overall=[[100000, 1100]], given=[[12500, 3300]], indep=[],
               extreme=[[4000, 5900]], dups=[0, 3], finite=True, fresh=True)
     muts = [("SameSeedSameSample", dict(kind="hist", exc="", draws=draws, dig=[1, 2, 3])),
             ("DifferentSeedsDiffer", dict(kind="hist", exc="", draws=draws, dig=[1, 1, 1])),
+            ("SameSeedSameSample", dict(kind="hist", exc="", draws=td, dig=[1, 2, 3])),    # 0 and np.int64(0) differ
             ("GeneratorAdvances", dict(kind="hist", exc="", draws=gd, dig=[1, 1, 1])),
             ("EqualGeneratorsEqualSample", dict(kind="hist", exc="", draws=gd, dig=[1, 2, 3])),
             ("StreamsIndependent", dict(kind="hist", exc="", draws=nn, dig=[1, 1, 2])),
@@ -701,7 +832,7 @@ def selftest(ctx):
             ("SameAsFreshObject", dict(ok, fresh=False)),
             ("RowsDrawnIndependently", dict(ok, dups=[0, 4])),
             ("SampleFinite", dict(ok, finite=False))]
-    good = [dict(ok), dict(kind="hist", exc="", draws=draws, dig=[1, 1, 2]),
+    good = [dict(ok), dict(kind="hist", exc="", draws=draws, dig=[1, 1, 2]), dict(kind="hist", exc="", draws=td, dig=[1, 1, 2]),
             dict(kind="hist", exc="", draws=gd, dig=[1, 1, 2])]
     recs = []
     for cl, r in muts:
@@ -727,7 +858,13 @@ def run(ctx):
     ctx.rule = ("univariate: 7 families x random_state {int, Generator, None} x 2/10 parameter draws, n = 1e5 (every "
                 "3rd-5th 1e6 in thorough); joint: every TLC-enumerated 2-D configuration (x2/x12) and every 3-D "
                 "configuration (x1/x4), concretised over the 7 families; shapes for n in {1,2,1000,1e5(,1e6)} x 3 "
-                "random_state kinds; every TLC-emitted draw history of length <= 3 over 5 random_state values x 2 "
+                "random_state kinds; families derived from ScipyDistribution (gamma, gumbel_r, weibull_min): fresh "
+                "samples and the histories draw -> write all / one parameter attribute / fit -> draw again (one "
+                "attribute also for the 7 shipped families); the integer seed spelled as np.int64 / np.int32 / np.uint32 / np.int64(0): joint "
+                "samples of every 2-D and every 8th/3rd 3-D configuration with all variables sampled by inversion "
+                "(Weibull / exponentiated Weibull), every family univariate, and the TLC histories that repeat a "
+                "seeded call replayed with the seed spelled per draw as int / np.int64 / np.int32 / np.uint32 (a seed "
+                "is its value); every TLC-emitted draw history of length <= 3 over 5 random_state values x 2 "
                 "objects (x 2 sizes in thorough) replayed on a rotating pair out of 17 real objects (9 "
                 "distributions incl. small-shape exponentiated Weibull / generalized gamma, 8 models incl. scalar / fixed constants). distinct = distinct (call, object/model, random_state, history); "
                 "non-trivial = joint: a dependence that varies with the given; history: at least one pair of draws")
@@ -776,6 +913,16 @@ def run(ctx):
     ctx.notes["samples_after_fit_or_assignment_with_moved_parameters"] = nrefit
     if not ctx.violations and nrefit < 8:
         raise Machinery(f"vacuous: only {nrefit} sample -> fit -> sample histories changed the distribution")
+    nst = sum(1 for o in meta if o.get("seedtype") and o["case"].get("task") == "ks")
+    nth = sum(1 for o in meta if o.get("seedtypes"))
+    ctx.notes["joint_samples_seeded_with_a_numpy_integer_all_variables_by_inversion"] = nst
+    ctx.notes["histories_replayed_with_numpy_integer_spellings_of_the_seed"] = nth
+    if not ctx.violations and (nst < 15 or nth < 40):
+        raise Machinery(f"vacuous: only {nst} joint samples / {nth} histories with a NumPy integer seed")
+    nsh = sum(1 for o in meta if o.get("scipyhist") and o["nontrivial"])
+    ctx.notes["scipydistribution_subclass_samples_after_direct_parameter_write_with_moved_parameters"] = nsh
+    if not ctx.violations and nsh < 6:
+        raise Machinery(f"vacuous: only {nsh} draw -> write parameters -> draw histories on ScipyDistribution subclasses moved")
     ext = sum(o.get("extreme_regions", 0) for o in meta)
     ctx.notes["fitted_models"] = sum(1 for o in meta if "extreme_regions" in o)
     ctx.notes["extreme_conditioning_regions_judged"] = ext
